@@ -15,7 +15,9 @@ Q == Tier = "quick"
 
 RECURSIVE JoinArgs(_)
 JoinArgs(a) == IF Len(a) = 0 THEN "" ELSE IF Len(a) = 1 THEN a[1] ELSE a[1] \o ", " \o JoinArgs(Tail(a))
-ArgText(t) == CASE t = "vector" -> "m" [] t = "matrix" -> "m[2s]" [] t = "scalar" -> "2" [] t = "string" -> "\"x\"" [] OTHER -> "m"
+\* (the vector and range arguments of functions are taken from the metric v, whose samples run through NaN, negative
+\* numbers, zero and both infinities: a function is answered for those values too, on whichever path)
+ArgText(t) == CASE t = "vector" -> "v" [] t = "matrix" -> "v[2s]" [] t = "scalar" -> "2" [] t = "string" -> "\"x\"" [] OTHER -> "v"
 
 \* constructs: [text, type]
 FnC(f) == [text |-> f.name \o "(" \o JoinArgs([i \in 1..Len(f.args) |-> ArgText(f.args[i])]) \o ")", type |-> f.ret]
@@ -68,7 +70,11 @@ Data == << Series(<< <<"__name__","m">>, <<"a","x">>, <<"b","1">>, <<"le","1">> 
            Series(<< <<"__name__","m">>, <<"a","x">>, <<"b","2">>, <<"le","+Inf">> >>, [i \in 1..12 |-> Smp(i - 1, "f", 3 * i)]),
            Series(<< <<"__name__","m">>, <<"a","y">>, <<"b","1">>, <<"le","1">> >>, [i \in 1..6 |-> Smp(2 * i - 1, "f", 20 - i)]),
            Series(<< <<"__name__","n">>, <<"a","x">>, <<"b","1">>, <<"le","1">> >>, [i \in 1..12 |-> Smp(i - 1, "f", 2)]),
-           Series(<< <<"__name__","n">>, <<"a","y">>, <<"b","1">>, <<"le","1">> >>, [i \in 1..12 |-> Smp(i - 1, "f", 5)]) >>
+           Series(<< <<"__name__","n">>, <<"a","y">>, <<"b","1">>, <<"le","1">> >>, [i \in 1..12 |-> Smp(i - 1, "f", 5)]),
+           Series(<< <<"__name__","v">>, <<"a","x">>, <<"b","1">>, <<"le","1">> >>,
+                  [i \in 1..12 |-> Smp(i - 1, CASE i % 5 = 0 -> "nan" [] i % 5 = 3 -> "pinf" [] OTHER -> "f", CASE i % 5 = 1 -> -2 [] i % 5 = 2 -> 0 [] OTHER -> 7)]),
+           Series(<< <<"__name__","v">>, <<"a","x">>, <<"b","2">>, <<"le","+Inf">> >>, [i \in 1..12 |-> Smp(i - 1, IF i % 4 = 0 THEN "ninf" ELSE "f", i)]),
+           Series(<< <<"__name__","v">>, <<"a","y">>, <<"b","1">>, <<"le","1">> >>, [i \in 1..6 |-> Smp(2 * i - 1, "f", 30 - i)]) >>
 
 VARIABLE g
 \* windows: instant, 5-step range, and a range query of a single step (start = end: still a matrix)
